@@ -64,6 +64,7 @@ def _violation(binpath, inv, cls, seq, ex_or_item, fee, pct, where):
     if cls == STALE:
         what = ("a revocation applies to the ledger a holder commitment that was validated against an older ledger: "
                 "more in flight than invoice + incoming + allowance after: %s" % payments.describe(seq2))
+    what += " [found by %s]" % where
     return {"key": key, "what": what,
             "replay": {"kind": "payments-seq", "chans": item["chans"], "hashes": item["hashes"], "fee": fee, "pct": pct,
                        "requests": reqs, "found_by": where}}
